@@ -202,6 +202,15 @@ def check(ctx):
         b = bind_call(c, ga)
         ok = unparse(b.get("pack_exception")) == "pack_exception"
         ctx.ob("DELEG.threaded-exception-hooks", c, "get_async(pack_exception=pack_exception)", ok)
+    # ---------------- the scheduler runs inside local_callbacks: the active set is restored on failure too
+    cbm = ctx.model.module("dask/callbacks.py")
+    lc = cbm.func("local_callbacks")
+    ys = [n for n in ast.walk(lc) if isinstance(n, ast.Yield)]
+    ok = len(ys) == 1
+    if ok:
+        t_, part_ = try_of(enclosing_stmt(ys[0]))
+        ok = t_ is not None and part_ == "body" and bool(t_.finalbody) and "Callback.active = callbacks" in unparse(ast.Module(body=t_.finalbody, type_ignores=[]))
+    ctx.ob("SCOPE.local-callbacks.finally", lc, "local_callbacks restores Callback.active in a finally around the yield (also when the scheduler raises)", ok, "" if ok else "after a failing computation the globally active callbacks stay swapped out: later computations call none of them")
 
 
 def try_of_outer(node, t):
@@ -217,16 +226,6 @@ def try_of_outer(node, t):
         child = n
         n = getattr(n, "_parent", None)
     return None
-
-    # ---------------- the scheduler runs inside local_callbacks: the active set is restored on failure too
-    cbm = ctx.model.module("dask/callbacks.py")
-    lc = cbm.func("local_callbacks")
-    ys = [n for n in ast.walk(lc) if isinstance(n, ast.Yield)]
-    ok = len(ys) == 1
-    if ok:
-        t_, part_ = try_of(enclosing_stmt(ys[0]))
-        ok = t_ is not None and part_ == "body" and bool(t_.finalbody) and "Callback.active = callbacks" in unparse(ast.Module(body=t_.finalbody, type_ignores=[]))
-    ctx.ob("SCOPE.local-callbacks.finally", lc, "local_callbacks restores Callback.active in a finally around the yield (also when the scheduler raises)", ok, "" if ok else "after a failing computation the globally active callbacks stay swapped out: later computations call none of them")
 
 
 VARIANTS = [
